@@ -1,50 +1,17 @@
 """C04 — untrusted layer bytes and registry replies cause errors, never a crash or a hang."""
 import concurrent.futures
-import os
-import re
-
-import vlib
-
-
-def _facts(ctx):
-    """Structural tie: the constants the model hard-codes (footer sizes, walk depth bound) and the
-    guards the theorems rely on must still be in the sources.  Regenerated on every run; a
-    mismatch is a broken tie."""
-    want = [
-        ("estargz/types.go", r"\bFooterSize\s*=\s*51\b"),
-        ("estargz/types.go", r"\blegacyFooterSize\s*=\s*47\b"),
-        ("estargz/zstdchunked/zstdchunked.go", r"\bFooterSize\s*=\s*40\b"),
-        ("estargz/externaltoc/externaltoc.go", r"\bFooterSize\s*=\s*46\b"),
-        ("fs/reader/reader.go", r"\bmaxWalkDepth\s*=\s*10000\b"),
-        # Open goes through the decompressors in order and validates the TOC range (model: tryDec)
-        ("estargz/estargz.go", r"fOffset := positive\(int64\(len\(footer\)\) - fSize\)"),
-        # the chunk validation shared by file.ReadAt, cacheWithReader and the passthrough loops (model: chunkContains)
-        ("fs/reader/reader.go", r"return chunkSize > 0 && chunkOffset >= 0 && chunkSize <= math\.MaxInt64-chunkOffset &&\s*\n\s*chunkOffset <= pos && pos-chunkOffset < chunkSize"),
-        ("fs/reader/reader.go", r"if !chunkContains\(chunkOffset, chunkSize, offset\+int64\(nr\)\) \|\| expectedSize <= 0 \|\| expectedSize > int64\(len\(p\)-nr\)"),
-        # gzip footers refuse a negative TOC offset (model: gzipFooter / legacyFooter)
-        ("estargz/gzip.go", r"if tocOffset < 0 \{"),
-        # getSource is a loop bounded by the number of entries (model: getSourceLoop)
-        ("estargz/estargz.go", r"for i := 0; ent\.Type == \"hardlink\"; i\+\+ \{\s*\n\s*if i > len\(r\.m\) \{"),
-    ]
-    n = 0
-    for rel, pat in want:
-        try:
-            src = open(os.path.join(vlib.REPO, rel)).read()
-        except OSError:
-            ctx.broken.append(f"fact:missing:{rel}")
-            continue
-        if re.search(pat, src):
-            n += 1
-        else:
-            ctx.broken.append(f"fact:{rel}:{pat[:40]}")
-    ctx.cov["facts_checked"] += n
 
 
 def run(ctx):
     ctx.regen_go2lean()
     ctx.lean_obligations(["SV.Props.C04", "SV.Props.C04gen"], drivers=["svdriver_c04"])
     quick = ctx.tier == "quick"
-    _facts(ctx)
+    # No pins on the text of /repo: everything the model assumes about the code is observed on the
+    # running code.  The footer sizes are read through FooterSize() and compared with the model's
+    # constants (op "consts"); the footer length/sign checks, Open's footer/TOC arithmetic, chunkContains
+    # and its use in file.ReadAt / GetPassthroughFd, getSource's bound and initFields' tree rules are
+    # exercised by the differential ops (footer / open / rd / pt / tree) and by the crash/hang oracle;
+    # chunkContains is additionally translated from the source by tools/go2lean on every run.
     # fs/layer binary: footers, estargz.Open + Reader walk, memory store + walk, fs/reader (Cache,
     # ReadAt, passthrough), FUSE node walk, Unpack, Build, and the arithmetic ops compared with
     # the Lean model.  db binary (cmd module): bolt-backed metadata store + fs/reader on top of it.
